@@ -19,7 +19,8 @@ func init() { register("C10", "exploration", checkC10) }
 func memberNames() []string {
 	set := map[string]bool{}
 	re := regexp.MustCompile(`"([^"\\\n]*[^\x00-\x7f][^"\\\n]*)"`)
-	for _, pat := range []string{"/repo/pkg/value/*.go", "/repo/pkg/common/*.go", "/repo/stdlib/json/*.go", "/repo/stdlib/file/*.go", "/repo/pkg/exec/globals.go"} {
+	for _, pat := range []string{"/pkg/value/*.go", "/pkg/common/*.go", "/stdlib/json/*.go", "/stdlib/file/*.go", "/pkg/exec/globals.go"} {
+		pat = repoRoot() + pat
 		files, _ := filepath.Glob(pat)
 		for _, f := range files {
 			if strings.HasSuffix(f, "_test.go") {
@@ -73,6 +74,17 @@ func c10Args() []Val {
 	}
 }
 
+// recvLen: length of a list / dictionary / text receiver (characters for texts)
+func recvLen(v Val) (int, bool) {
+	switch v.T {
+	case "list", "dict":
+		return len(v.Items), true
+	case "text":
+		return len([]rune(v.S())), true
+	}
+	return 0, false
+}
+
 func valKind(v Val) string {
 	if v.T == "object" || v.T == "type" || v.T == "method" {
 		return v.T + ":" + v.Name
@@ -81,7 +93,7 @@ func valKind(v Val) string {
 }
 
 func checkC10(c *Ctx) {
-	c.rule = "API driver: every receiver of a 51-value pool (all value types incl. objects, types, library functions, exception, Go value) x every member name extracted from the working tree (+unknown names) x {get, set, call, new, fn, str, dup, cmp, json} x argument tuples (arity 0..1 exhaustive over a 32-value boundary pool, arity 2 exhaustive in thorough, arity 2..4 random), applied as step sequences on one receiver. Program driver: one- and two-statement Zn programs applying every operator / index / member / call / new / throw / loop form to input variables drawn from the same pools. Violation = recovered Go panic, nil element without error, worker exit, or hang. distinct_nontrivial = distinct (receiver kind, step kind, member, arg kinds, outcome kind)"
+	c.rule = "API driver: every receiver of a 51-value pool (all value types incl. objects, types, library functions, exception, Go value) x every member name extracted from the working tree (+unknown names) x {get, set, call, new, fn, str, dup, cmp, json} x argument tuples (arity 0..1 exhaustive over a 32-value boundary pool, arity 2 exhaustive in thorough, arity 2..4 random; for list / dictionary / text receivers additionally every position and position pair in [-2, length+2]), applied as step sequences on one receiver. Program driver: one- and two-statement Zn programs applying every operator / index / member / call / new / throw / loop form to input variables drawn from the same pools. Violation = recovered Go panic, nil element without error, worker exit, or hang. distinct_nontrivial = distinct (receiver kind, step kind, member, arg kinds, outcome kind)"
 	c.assumptions = []string{"library functions run inside the worker's private scratch directory", "member tables are read from /repo sources at check time by a string-literal scan"}
 	rng := c.Rand("c10")
 	members := memberNames()
@@ -119,6 +131,17 @@ func checkC10(c *Ctx) {
 				for _, a := range args {
 					for _, b := range args {
 						steps = append(steps, Step{Kind: "call", Name: m, Args: []Val{a, b}})
+					}
+				}
+			}
+			// positions relative to the receiver's own length (off-by-one boundaries)
+			if L, ok := recvLen(rv); ok && L <= 12 {
+				for i := -2; i <= L+2; i++ {
+					steps = append(steps, Step{Kind: "call", Name: m, Args: []Val{Num(float64(i))}})
+					steps = append(steps, Step{Kind: "call", Name: m, Args: []Val{Text("x"), Num(float64(i))}})
+					steps = append(steps, Step{Kind: "call", Name: m, Args: []Val{Num(float64(i)), Text("x")}})
+					for j := -2; j <= L+2; j++ {
+						steps = append(steps, Step{Kind: "call", Name: m, Args: []Val{Num(float64(i)), Num(float64(j))}})
 					}
 				}
 			}
@@ -247,6 +270,13 @@ func checkC10(c *Ctx) {
 		}
 		// every receiver once with the natural forms
 		for _, rv := range recvs {
+			if L, ok := recvLen(rv); ok && L <= 12 {
+				for _, pr := range [][2]int{{L, L + 1}, {L + 1, L + 1}, {0, L + 1}, {1, L + 1}, {L + 1, 1}, {-L, L}, {L, -L - 1}} {
+					addProg("call2-len", "以甲（"+m+"：乙、丙）\n（显示：甲）\n", rv, Num(float64(pr[0])), Num(float64(pr[1])))
+				}
+				addProg("call1-len", "以甲（"+m+"：乙）\n（显示：甲）\n", rv, Num(float64(L+1)))
+				addProg("index-len", "（显示：甲#乙）\n甲#乙 = 1\n（显示：甲）\n", rv, Num(float64(L+1)))
+			}
 			addProg("member-get", "输出甲之"+m+"\n", rv)
 			addProg("call1", "以甲（"+m+"：乙）\n（显示：甲）\n", rv, pick())
 		}
